@@ -1,26 +1,111 @@
 #!/usr/bin/env python3
-"""Apply each confirmed seeded change to /repo, run the check of the property it breaks, undo it.
-Writes seeded/RESULTS.json and prints a table.  Usage: run_seeds.py [ids...]"""
-import json, os, subprocess, sys, glob
+"""Apply each confirmed seeded change, run the check of the property it breaks, undo it.
+Writes seeded/RESULTS.json and prints a table.  Usage: run_seeds.py [--jobs N] [ids...]
+
+--jobs 1 (default when ids are given without --jobs): the change is applied to /repo itself (git apply / checkout).
+--jobs N: N workers, each with its own scratch git worktree of /repo under /tmp, its own copy of the witness-search crate
+          (path dependency pointed at that worktree) and its own output directory; /repo is never touched.  The check that
+          runs is the same vtool/check.py, relocated through VERIF_REPO / VERIF_REPLAY_DIR / VERIF_REPLAY_TARGET / VERIF_OUT.
+          Everything under /tmp is removed at the end."""
+import concurrent.futures as cf
+import json, os, queue, shutil, subprocess, sys, glob
 ROOT = os.path.dirname(os.path.dirname(os.path.abspath(__file__)))
+args = sys.argv[1:]
+jobs = 1
+if '--jobs' in args:
+    k = args.index('--jobs')
+    jobs = int(args[k + 1])
+    del args[k:k + 2]
 claimed = {c['property_id'] for c in json.load(open(os.path.join(ROOT, 'MANIFEST.json')))['checks']}
-ids = sys.argv[1:] or sorted(os.path.basename(p) for p in glob.glob(os.path.join(ROOT, 'seeded', 'C*')))
+ids = args or sorted(os.path.basename(p) for p in glob.glob(os.path.join(ROOT, 'seeded', 'C*')))
 res_path = os.path.join(ROOT, 'seeded', 'RESULTS.json')
 results = json.load(open(res_path)) if os.path.exists(res_path) else {}
 assert subprocess.run(['git', '-C', '/repo', 'status', '--porcelain', '--untracked-files=no'], capture_output=True, text=True).stdout.strip() == '', '/repo not clean'
-for sid in ids:
+
+
+def summarise(sid, prop, r):
+    lines = [l[:260] for l in r.stdout.strip().split('\n')]
+    outcome = {0: 'MISSED (exit 0)', 1: 'DETECTED (VIOLATION)', 2: 'UNDECIDED (exit 2)'}.get(r.returncode, 'exit %d' % r.returncode)
+    viol = [l for l in lines if l.startswith('VIOLATION')]
+    first = viol[0].split('obligation=')[-1].split()[0] if viol and 'obligation=' in viol[0] else ''
+    mode = 'witness' if 'witness' in first else ('scan' if 'scan' in first else ('kani' if 'kani' in first else ('deductive' if first else '')))
+    print(sid, outcome, mode, '|', (viol or [l for l in lines if l.startswith('UNDECIDED')])[:1], flush=True)
+    return {'property': prop, 'outcome': outcome, 'first_obligation': first, 'decided_by': mode, 'lines': lines[-4:]}
+
+
+def in_repo(sid):
     d = os.path.join(ROOT, 'seeded', sid)
     prop = sid.split('-')[0]
-    if prop not in claimed:
-        results[sid] = {'property': prop, 'outcome': 'property-not-claimed'}
-        print(sid, 'property not claimed'); continue
     subprocess.run(['git', '-C', '/repo', 'apply', os.path.join(d, 'patch.diff')], check=True)
     try:
         r = subprocess.run(['python3', 'vtool/check.py', prop], cwd=ROOT, capture_output=True, text=True)
     finally:
         subprocess.run(['git', '-C', '/repo', 'checkout', '--', '.'], check=True)
-    lines = [l[:260] for l in r.stdout.strip().split('\n')]
-    outcome = {0: 'MISSED (exit 0)', 1: 'DETECTED (VIOLATION)', 2: 'UNDECIDED (exit 2)'}.get(r.returncode, 'exit %d' % r.returncode)
-    results[sid] = {'property': prop, 'outcome': outcome, 'lines': lines[-4:]}
-    print(sid, outcome, '|', [l for l in lines if l.startswith('VIOLATION') or l.startswith('UNDECIDED')][:1])
+    return summarise(sid, prop, r)
+
+
+workers = queue.Queue()
+
+
+def setup_worker(k):
+    wt = '/tmp/verif-seedwt-%d' % k
+    subprocess.run(['git', '-C', '/repo', 'worktree', 'remove', '--force', wt], capture_output=True)
+    shutil.rmtree(wt, ignore_errors=True)
+    subprocess.run(['git', '-C', '/repo', 'worktree', 'add', '-q', '--detach', wt, 'HEAD'], check=True)
+    shutil.copy('/repo/Cargo.lock', os.path.join(wt, 'Cargo.lock'))
+    rp = wt + '-replay'
+    shutil.rmtree(rp, ignore_errors=True)
+    shutil.copytree(os.path.join(ROOT, 'vtool', 'replay'), rp, ignore=shutil.ignore_patterns('target'))
+    toml = open(os.path.join(rp, 'Cargo.toml')).read().replace('/repo/wgsl_to_wgpu', wt + '/wgsl_to_wgpu')
+    open(os.path.join(rp, 'Cargo.toml'), 'w').write(toml)
+    out = wt + '-out'
+    shutil.rmtree(out, ignore_errors=True)
+    os.makedirs(out)
+    return {'wt': wt, 'replay': rp, 'target': wt + '-target', 'out': out}
+
+
+def in_worktree(sid):
+    w = workers.get()
+    try:
+        d = os.path.join(ROOT, 'seeded', sid)
+        prop = sid.split('-')[0]
+        subprocess.run(['git', '-C', w['wt'], 'apply', os.path.join(d, 'patch.diff')], check=True)
+        env = dict(os.environ, VERIF_REPO=w['wt'], VERIF_REPLAY_DIR=w['replay'], VERIF_REPLAY_TARGET=w['target'], VERIF_OUT=w['out'])
+        try:
+            r = subprocess.run(['python3', 'vtool/check.py', prop], cwd=ROOT, capture_output=True, text=True, env=env)
+        finally:
+            subprocess.run(['git', '-C', w['wt'], 'checkout', '--', '.'], check=True)
+        return summarise(sid, prop, r)
+    finally:
+        workers.put(w)
+
+
+todo = []
+for sid in ids:
+    prop = sid.split('-')[0]
+    if prop not in claimed:
+        results[sid] = {'property': prop, 'outcome': 'property-not-claimed'}
+        print(sid, 'property not claimed')
+    else:
+        todo.append(sid)
+if jobs <= 1:
+    for sid in todo:
+        results[sid] = in_repo(sid)
+else:
+    ws = [setup_worker(k) for k in range(jobs)]
+    for w in ws:
+        workers.put(w)
+    try:
+        with cf.ThreadPoolExecutor(max_workers=jobs) as ex:
+            for sid, res in zip(todo, ex.map(in_worktree, todo)):
+                results[sid] = res
+    finally:
+        for w in ws:
+            subprocess.run(['git', '-C', '/repo', 'worktree', 'remove', '--force', w['wt']], capture_output=True)
+            for p in (w['wt'], w['replay'], w['target'], w['out']):
+                shutil.rmtree(p, ignore_errors=True)
 json.dump(results, open(res_path, 'w'), indent=1)
+modes = {}
+for v in results.values():
+    modes[v.get('decided_by') or v['outcome']] = modes.get(v.get('decided_by') or v['outcome'], 0) + 1
+print('summary:', modes)
